@@ -23,7 +23,7 @@ def main():
     t0 = time.time()
     mod = importlib.import_module("vlib.props." + pid.lower())
     evidence_path = os.path.join(core.VERIF, "evidence", pid + ".json")
-    P = core.prepare(need_cli=getattr(mod, "NEED_CLI", False))
+    P = core.prepare(need_cli=getattr(mod, "NEED_CLI", False), need_ovf=getattr(mod, "NEED_OVF", False))
     if P.build_error:
         core.log(P.build_error)
         print("ERROR: /repo does not build; cannot decide %s" % pid)
